@@ -124,6 +124,10 @@ def drive(gen, script, sent, thrown):
                     v = None
                 elif step == "send(falsy)":
                     v = sent.setdefault(i, FalsyTok(f"falsy{i}"))
+                elif step in ("send(location)", "send(reading)"):
+                    val = thrown.get("numeric", 0.0)
+                    last = outs[-1][1]
+                    v = {"setpoint": val, "readback": val} if step == "send(location)" else {last.obj.name: {"value": val, "timestamp": 0}}
                 elif step == "send([device])":
                     v = [outs[-1][1].obj]
                 else:
@@ -202,6 +206,8 @@ def script(model, info, art, extra_ns=None, msg_factory=None):
     ns_r.update(extra_ns or {})
     ns_r.update(objects("ref"))
     sent, thrown = {}, {}
+    if "numeric" in cfg:
+        thrown["numeric"] = cfg["numeric"]
     if cfg.get("throw_cls"):
         m, c = cfg["throw_cls"].split(":")
         thrown["cls"] = getattr(importlib.import_module(m), c)
